@@ -207,11 +207,20 @@ def evaluate(
             ):
                 # If parts of the formula (quantifiers over open trees, predicates
                 # that are not yet ready) were abstracted by uninterpreted predicates,
-                # "not valid" does not mean "false": The outcome depends on how the
-                # open parts are completed.
+                # or if SMT atoms refer to open trees (which are free variables in the
+                # SMT formula), "not valid" does not mean "false": The outcome depends
+                # on how the open parts are completed.
+                refers_to_open_trees = any(
+                    tree.is_open()
+                    for smt_formula in FilterVisitor(
+                        lambda f: isinstance(f, SMTFormula)
+                    ).collect(without_predicates)
+                    for tree in smt_formula.substitutions.values()
+                )
+
                 return (
                     ThreeValuedTruth.unknown()
-                    if predicate_mapping
+                    if predicate_mapping or refers_to_open_trees
                     else ThreeValuedTruth.false()
                 )
         else:
